@@ -569,7 +569,15 @@ func (l *Link) ConsumedBySUT() int64 { return l.consumed }
 // PeerClose queues a FIN behind the bytes already written.
 //
 //go:norace
-func (l *Link) PeerClose() { l.toSUTEOF = true }
+func (l *Link) PeerClose() {
+	l.toSUTEOF = true
+	if l.NoRead {
+		// a peer that closes its socket is no longer "not reading": its kernel takes (and discards)
+		// whatever arrives, so writes of the SUT that were blocked on a full buffer proceed
+		l.NoRead = false
+		l.Conn.wq.WakeAll()
+	}
+}
 
 // PeerReset kills the connection at once: pending bytes in both directions are lost.
 //
